@@ -96,6 +96,15 @@ def gen_case(rng, allow_f10=False, boundary=False, single=None, force_policy=Non
             s_["runtime"] *= scale
         tasks.append(t)
     rng.shuffle(tasks)
+    if rng.random() < 0.3:
+        # several invocations of one operator inside one graph: tasks that share their NAME (and hence Task.unique_name) and
+        # differ in their timestamp - a first-class input (tests/test_tasks.py builds such graphs); identity is the object
+        for i in range(1, len(tasks)):
+            same = [j for j in range(i) if tasks[j]["graph"] == tasks[i]["graph"]]
+            if same and rng.random() < 0.5:
+                j = rng.choice(same)
+                tasks[i]["name_of"] = tasks[j].get("name_of", j)
+                tasks[i]["ts"] = i
     case = {"policy": pol, "enforce": enforce, "preemptive": preemptive, "now": now, "pools": pools, "tasks": tasks,
             "rseed": rng.randrange(1 << 30)}
     if scale > 1:
